@@ -362,6 +362,7 @@ class HttpStreamSession:
 
     __slots__ = (
         "_call_state_bytes",
+        "_cancelled",
         "_capabilities",
         "_client",
         "_compression_level",
@@ -422,6 +423,12 @@ class HttpStreamSession:
         # What preceded it is delivered first; the error is raised at the point
         # in the stream where the server reported it.
         self._deferred_error = deferred_error
+        self._cancelled = False
+
+    def _check_not_cancelled(self) -> None:
+        """Refuse further use of a session that ``cancel()`` has been called on."""
+        if self._cancelled:
+            raise RpcError("ProtocolError", "Stream has been cancelled", "")
 
     def _raise_deferred_error(self) -> None:
         """Raise (once) the error that followed the init response's header and batches."""
@@ -546,6 +553,7 @@ class HttpStreamSession:
             RpcError: If the server reports an error or the stream has finished.
 
         """
+        self._check_not_cancelled()
         self._raise_deferred_error()
         if self._state_bytes is None:
             raise RpcError("ProtocolError", "Stream has finished — no state token available", "")
@@ -633,9 +641,17 @@ class HttpStreamSession:
         """Iterate over output batches from a producer stream.
 
         Yields pre-loaded batches from init, then follows continuation tokens.
+
+        Raises:
+            RpcError: If the server reports an error, or once ``cancel()`` has
+                been called on the session.
+
         """
-        # Yield pre-loaded batches from init response
+        self._check_not_cancelled()
+        # Yield pre-loaded batches from init response.  cancel() empties the
+        # list, which also ends this loop when it is called between two batches.
         yield from self._pending_batches
+        self._check_not_cancelled()
         self._pending_batches.clear()
         self._raise_deferred_error()
 
@@ -673,6 +689,10 @@ class HttpStreamSession:
                     batch, custom_metadata, self._external_config, self._on_log, reader.ipc_validation
                 )
                 yield AnnotatedBatch(batch=resolved_batch, custom_metadata=resolved_cm)
+                # The consumer may have cancelled while it held that batch: stop
+                # here instead of delivering the rest of the response or asking
+                # the server to run the cancelled stream again.
+                self._check_not_cancelled()
         except RpcError:
             if reader is not None:
                 _drain_stream(reader)
@@ -707,6 +727,7 @@ class HttpStreamSession:
             "next_with_token requires one data batch per response; the upstream "
             "worker buffered multiple (configured max_response_bytes?)"
         )
+        self._check_not_cancelled()
         # Init may have preloaded one data batch; its resume point is _state_bytes.
         if self._pending_batches:
             if len(self._pending_batches) > 1:
@@ -790,6 +811,11 @@ class HttpStreamSession:
         ``cancel()``, the session is marked finished; further ``exchange()``
         or iteration raises ``RpcError``.
         """
+        # Batches preloaded by the init response belong to the stream being
+        # abandoned; they must not be handed out after the cancel.
+        self._cancelled = True
+        self._pending_batches.clear()
+        self._deferred_error = None
         if self._finished or self._state_bytes is None:
             self._finished = True
             self._state_bytes = None
